@@ -9,49 +9,7 @@ use std::sync::Mutex;
 
 pub const PANIC_CODE: u32 = 0xDEAD;
 
-#[derive(Clone, Debug)]
-pub struct Snap {
-    pub key: Pubkey,
-    pub owner: Pubkey,
-    pub lamports: u64,
-    pub data: Vec<u8>,
-    pub is_signer: bool,
-    pub is_writable: bool,
-}
-
-#[derive(Clone, Debug)]
-pub struct TapEvent {
-    pub program: Pubkey,
-    pub data: Vec<u8>,
-    pub pre: Vec<Snap>,
-    pub post: Vec<Snap>,
-    pub stack_height: usize,
-    /// Ok, or the program error as u64-coded ProgramError string
-    pub result: Result<(), ProgramError>,
-    pub panicked: bool,
-}
-
-impl TapEvent {
-    pub fn discr(&self) -> [u8; 8] {
-        let mut d = [0u8; 8];
-        if self.data.len() >= 8 {
-            d.copy_from_slice(&self.data[..8]);
-        }
-        d
-    }
-    pub fn ok(&self) -> bool {
-        self.result.is_ok()
-    }
-    pub fn pre_of(&self, k: &Pubkey) -> Option<&Snap> {
-        self.pre.iter().find(|s| &s.key == k)
-    }
-    pub fn post_of(&self, k: &Pubkey) -> Option<&Snap> {
-        self.post.iter().find(|s| &s.key == k)
-    }
-    pub fn signers(&self) -> Vec<Pubkey> {
-        self.pre.iter().filter(|s| s.is_signer).map(|s| s.key).collect()
-    }
-}
+pub use vcommon::tapdefs::{Snap, TapEvent};
 
 static EVENTS: Mutex<Vec<TapEvent>> = Mutex::new(Vec::new());
 
